@@ -6,16 +6,64 @@ From GA.Gen Require Import Alpha.
 From GA.Model Require Import Dedup.
 
 (* ================= Compress ================= *)
+Lemma cols_fast_spec : forall w ss,
+  cols_fast ss w = map (fun i => map (fun s => nth i s x2d) ss) (seq 0 w).
+Proof.
+  induction w as [|w IH]; intros ss; [reflexivity|].
+  cbn [cols_fast]. rewrite IH. rewrite <- cons_seq, <- seq_shift. cbn [map]. f_equal.
+  - apply map_ext. intros [|b t]; reflexivity.
+  - rewrite map_map. apply map_ext. intros i. rewrite map_map. apply map_ext. intros [|b t]; [destruct i|]; reflexivity.
+Qed.
+
+Lemma columns_spec rs : columns rs = map (column rs) (seq 0 (width rs)).
+Proof.
+  unfold columns. rewrite cols_fast_spec. apply map_ext. intros i. unfold column. rewrite map_map. reflexivity.
+Qed.
+
+Lemma existsb_bytes x seen : existsb (bytes_eqb x) seen = true <-> In x seen.
+Proof.
+  rewrite existsb_exists. split.
+  - intros [y [Hy E]]. apply bytes_eqb_eq in E. subst y. exact Hy.
+  - intros H. exists x. split; [exact H | apply bytes_eqb_refl].
+Qed.
+
+Lemma distinct_acc_in : forall l seen p, In p (distinct_acc seen l) <-> In p l /\ ~ In p seen.
+Proof.
+  induction l as [|x t IH]; intros seen p; cbn [distinct_acc].
+  - split; [intros [] | intros [[] _]].
+  - destruct (existsb (bytes_eqb x) seen) eqn:E.
+    + apply existsb_bytes in E. rewrite IH. split.
+      * intros [H1 H2]. split; [right; exact H1 | exact H2].
+      * intros [[->|H1] H2]; [contradiction | split; assumption].
+    + assert (Hx : ~ In x seen) by (intros H; apply existsb_bytes in H; congruence).
+      cbn [In]. rewrite IH. cbn [In]. split.
+      * intros [<-|[H1 H2]]; [split; [left; reflexivity | exact Hx]|].
+        split; [right; exact H1 | intros H; apply H2; right; exact H].
+      * intros [[->|H1] H2]; [left; reflexivity|].
+        destruct (bytes_dec x p) as [->|Hne]; [left; reflexivity|].
+        right. split; [exact H1 | intros [H|H]; [congruence | contradiction]].
+Qed.
+
+Lemma distinct_acc_nodup : forall l seen, NoDup (distinct_acc seen l).
+Proof.
+  induction l as [|x t IH]; intros seen; cbn [distinct_acc]; [constructor|].
+  destruct (existsb (bytes_eqb x) seen); [apply IH|].
+  constructor; [|apply IH]. intros H. apply distinct_acc_in in H as [_ H]. apply H. left. reflexivity.
+Qed.
+
+Lemma distinct_cols_in l p : In p (distinct_cols l) <-> In p l.
+Proof. unfold distinct_cols. rewrite distinct_acc_in. split; [intros [H _]; exact H | intros H; split; [exact H | intros []]]. Qed.
+
 Lemma patterns_nodup cols : NoDup (patterns cols).
 Proof.
-  unfold patterns. eapply Permutation_NoDup; [apply isort_perm|]. apply NoDup_nodup.
+  unfold patterns. eapply Permutation_NoDup; [apply isort_perm|]. apply distinct_acc_nodup.
 Qed.
 
 Lemma patterns_in cols p : In p (patterns cols) <-> In p cols.
 Proof.
   unfold patterns. split; intros H.
-  - apply (nodup_In bytes_dec). eapply Permutation_in; [apply Permutation_sym, isort_perm | exact H].
-  - eapply Permutation_in; [apply isort_perm|]. apply nodup_In. exact H.
+  - apply distinct_cols_in. eapply Permutation_in; [apply Permutation_sym, isort_perm | exact H].
+  - eapply Permutation_in; [apply isort_perm|]. apply distinct_cols_in. exact H.
 Qed.
 
 Lemma patterns_sorted cols : Sorted lex_le (patterns cols).
